@@ -1135,15 +1135,14 @@ class SP(Robot):
                 self._top_joints_space[:, num], self._bottom_joints_space[:, num])
         top_true = fsr.mirror(self.getBottomT() @ tm([0, 0, self.bottom_plate_thickness, 0, 0, 0]),
             self.getTopT() @ tm([0, 0, -self.top_plate_thickness, 0, 0, 0]))
-        top_true[3:6] = self.getTopT()[3:6] * -1
-        self._end_effector_pos_global = top_true @ tm([0, 0, self.top_plate_thickness, 0, 0, 0])
-        top_true = self.getTopT() @ tm([0, 0, -self.top_plate_thickness, 0, 0, 0])
-        res = lambda x : self._lambdaTopPlateReorientation(
-            tm([top_true[0], top_true[1], top_true[2], x[0], x[1], x[2]]))
-        x_init = self.getTopT()[3:6].flatten()
-        solution = sci.optimize.fsolve(res, x_init)
-        top_true[3:6] = solution
-        self._end_effector_pos_global = top_true @ tm([0, 0, self.top_plate_thickness, 0, 0, 0])
+        #The top joints lie in one plane of the top plate, so their mirror image is reached by a proper rotation:
+        #reflect the old orientation through the bottom plane and flip the plate's own z axis.
+        normal = self.getBottomT().gTM()[0:3, 2]
+        mirrored = np.eye(4)
+        mirrored[0:3, 0:3] = ((np.eye(3) - 2 * np.outer(normal, normal)) @
+            self.getTopT().gTM()[0:3, 0:3] @ np.diag([1.0, 1.0, -1.0]))
+        mirrored[0:3, 3] = top_true[0:3].flatten()
+        self._end_effector_pos_global = tm(mirrored) @ tm([0, 0, self.top_plate_thickness, 0, 0, 0])
 
     def _rescaleLegLengths(self, current_leg_min : float, current_leg_max : float) -> None:
         """
